@@ -52,6 +52,16 @@ CMDS = {
     "req_cyc": "require CycA",
     "loop_err": "for i in [1, 2, 3] do if i == 2 then error 'x'; end",
     "say": "println('hi'); 1",
+    # a text with a syntax error runs nothing, wherever the error sits
+    "syn_sys": "def sl = 1; a = a + 1; checkerlang_secure_mode = FALSE",
+    "syn_after": "def sa = 1; a = a + 1; def sb = (",
+    "read_sx": "[do sa catch all 'nosa' end, do sl catch all 'nosl' end]",
+    # definitions made in a loop body are session definitions, also when
+    # the loop is aborted later
+    "loop_def": "for n in [10, 20] do def seen = n; end; seen",
+    "loop_def_fail": "for n in [10, 20, 30] do def seen2 = n; "
+                     "if n == 20 then error 'stop' end",
+    "read_seen": "[do seen catch all 'no1' end, do seen2 catch all 'no2' end]",
     # a session may define its own stdout: both print forms follow it
     "def_out": "require IO; def stdout = IO->str_output(); 1",
     "say2": "print('p'); println('q'); 2",
@@ -283,6 +293,19 @@ class Sessions(e4.Explorer):
         elif name == "say":
             exp = ["value", "1"] if s.get("redir") else \
                 ["value", "1", {"output": [[who, "hi\n"]]}]
+        elif name in ("syn_sys", "syn_after"):
+            exp = ["syn"]
+        elif name == "read_sx":
+            exp = ["value", "['nosa', 'nosl']"]
+        elif name == "loop_def":
+            s["seen"] = True
+            exp = ["value", "20"]
+        elif name == "loop_def_fail":
+            s["seen2"] = True
+            exp = ["rt", "'stop'"]
+        elif name == "read_seen":
+            exp = ["value", "[" + ("20" if s.get("seen") else "'no1'") +
+                   ", " + ("20" if s.get("seen2") else "'no2'") + "]"]
         elif name == "def_out":
             s["redir"] = True
             exp = ["value", "1"]
@@ -418,10 +441,14 @@ def main(tier, seed):
            "bump", "req_missing", "env_def", "env_read", "say", "str_edit"]
     light = ("div0", "syntax", "req_syn", "req_missing", "loop_err",
              "read_q", "def_fail", "str_def", "seed", "rnd", "rnd_fail",
-             "class_fail", "read_pv", "str_edit", "def_out", "say2")
+             "class_fail", "read_pv", "str_edit", "def_out", "say2",
+             "syn_sys", "syn_after", "read_sx", "loop_def", "loop_def_fail",
+             "read_seen")
     # small closed groups of commands that only interact with each other
     groups = [(["seed", "rnd", "rnd_fail", "div0"], 4),
               (["def_out", "say", "say2", "partial", "div0"], 3),
+              (["def_a", "syn_sys", "syn_after", "read_a", "read_sx"], 3),
+              (["loop_def", "loop_def_fail", "read_seen", "div0"], 3),
               (["class_fail", "def_fail", "read_pv", "def_a", "str_edit",
                 "str_def"], 3)]
     if tier == "quick":
